@@ -554,7 +554,7 @@ func testsAtomicWithUpdate(p *Prog, T *Terms, ls *LockSets, reg *ssa.Function, u
 		for _, in := range b.Instrs {
 			switch x := in.(type) {
 			case *ssa.UnOp:
-				if strip(T.T(x)) == "param:"+recv+"."+svcF.Running {
+				if t := strip(T.T(x)); strings.HasPrefix(t, "param:"+recv+".") && strings.HasSuffix(t, "."+svcF.Running) {
 					tests = append(tests, in)
 				}
 			case *ssa.Lookup:
